@@ -257,7 +257,23 @@ func TestC18Punishment(t *testing.T) {
 						violation(t, "c18-stake-kept", r, "BeginBlock(%d): stake of %s in coin %d at punished candidate %d is still %s", hh, s.Owner.String(), s.Coin, pc.ID, s.Value)
 					}
 				}
+				// (moved stakes that arrive at this height are delegated after the punishment: allowed)
+				arriving := map[string]*big.Int{}
+				for _, f := range prev.FrozenFunds {
+					if f.MoveToCandidateID == pc.ID && f.Height == hh {
+						k := fmt.Sprintf("%s/%d", f.Address.String(), f.Coin)
+						if arriving[k] == nil {
+							arriving[k] = new(big.Int)
+						}
+						arriving[k].Add(arriving[k], sim.B(f.Value))
+					}
+				}
 				for _, u := range ds.Candidates.VerifPendingUpdates(pc.PubKey) {
+					k := fmt.Sprintf("%s/%d", u.Owner.String(), u.Coin)
+					if a := arriving[k]; a != nil && a.Cmp(sim.B(u.Value)) >= 0 {
+						a.Sub(a, sim.B(u.Value))
+						continue
+					}
 					if sim.B(u.Value).Sign() != 0 {
 						violation(t, "c18-stake-kept", r, "BeginBlock(%d): pending delegation of %s in coin %d at punished candidate %d is still %s (it becomes an unslashed stake at the next validator update)", hh, u.Owner.String(), u.Coin, pc.ID, u.Value)
 					}
